@@ -85,6 +85,30 @@ chk("C12", "exploration",
     "bounded-exhaustive program enumeration (call-opcode sequences x registry methods) with twin-run differential oracle on full store dumps, defect-aware classification, process-sharded",
     "DESIGN.md §5 C12", "seqx-branch")
 
+chk("C02", "exploration",
+    "Differential exhaustive enumeration against go-ethereum's own state transition: every (pre-state, frame-tree program, transaction) of a bounded grammar (SSTORE/SLOAD/LOG, the four call opcodes to child / self / EOA / 0x0 / fresh / ecrecover with value and gas variants, CREATE/CREATE2 of four init codes, SELFDESTRUCT, REVERT/INVALID/RETURN, BALANCE/EXTCODE*, gas burner; trees of depth 2 (thorough 3); 5 tx forms x 4 gas limits x value x call/creation; every program also as second message after 13 prefixes) is executed by the real Keeper.ApplyMessageWithConfig(commit) on a branch of the app state and by core.ApplyMessage over go-ethereum's core/state with the same block context, chain config and message. Compared: error class, return data, gas used, logs, and existence/nonce/balance/code/storage of every account (universe, anything else in evermint's stores, every possible CREATE/CREATE2 address). A subset also runs through complete FinalizeBlock with non-zero prices. 148 932 (thorough 1 117 358) differential pairs.",
+    "Both sides share the interpreter of the forked go-ethereum (core/vm), so opcode semantics that live only there are not under test. Keeper passes use zero prices; the two insufficient-funds sentinels are one class (buyGas disabled). Storage is compared as a total map; evermint leaves zero-valued slot entries. Coinbase, fee collector and the x/evm module account are not compared. The 'no custom precompile' control world is synthetic, since genesis always deploys bech32.",
+    "exhaustive bounded enumeration of programs x transactions x pre-states on the real keeper / real app, differential oracle = go-ethereum reference transition, defect-aware classification by an emulated reference",
+    "DESIGN.md §3.6, §5 C02", "gethref")
+
+chk("C07", "exploration",
+    "Exhaustive enumeration of a bounded product of transaction shapes on the real application: message lists of length <= 3 over {MsgEthereumTx legacy/dynamic-fee, bank send, the three vesting-creation messages, MsgGrant of a generic authorisation for each disabled type and for bank send, MsgExec nested to depth 5 (narrow and with a sibling message at every level) around each of them} x the Ethereum envelope factors (extension options, signature, signer info, fee payer, fee granter, memo, timeout height, declared fee, declared gas limit; full product in thorough, all single and pairwise deviations in quick). Each shape is hand-assembled as protobuf and run in Simulate, CheckTx, ReCheck and FinalizeBlock on a fresh app. An independent reference predicate transcribed from the property decides which shapes must be refused in every mode; delivered transactions must show exactly their lane's events; refused transactions must leave all stores but the fee market's equal to an empty-block twin. 4 321 (78 440) shapes, 13 157 (235 793) mode executions.",
+    "No state dedupe: exhaustive means the stated finite product was enumerated completely. Only refusals are demanded (plus sanity shapes); top-level vesting creation belongs to C16; ReCheck only after CheckTx acceptance. Trusts the cosmos-sdk tx decoder, baseapp and authz, and the generated protobuf types used by the reference. Routes other than the ante handler (x/gov proposal execution) are outside this property's sentence and are not judged here (DESIGN.md §10.3).",
+    "exhaustive bounded enumeration of hand-built transaction shapes x 4 ABCI modes on fresh apps, independent acceptance predicate + lane-event and twin-state oracles",
+    "DESIGN.md §5 C07", "grid")
+
+chk("C11", "model_checking",
+    "Twin-branch explicit-state BFS on CacheContext branches of the real state (3 validators, one slashed world so that shares differ from tokens; callers EOA A/B, forwarder contract by CALL and DELEGATECALL, a contract calling twice): from every state the operation is applied once through evm.Call on the staking precompile (P) and once as the corresponding native staking / distribution messages through the SDK message servers (N) from the same parent context. Alphabet: every ABI method (asserted against the ABI json), amounts {0, 1, 1e18, all, all+1}, validators {V1, V2, unknown}, 6 redelegate pairs, signed-message variants {valid, signer != delegator, delegator != caller, chain id + 1, tampered, relayed}, reward allocation, next block, unbonding period + real staking EndBlocker. Per transition: P and N both succeed or both fail; all stores byte-identical (distribution modulo period renumbering); non-callers untouched; the log multiset of P equals the one derived from N's module events; every view equals the native querier; forged messages change nothing. Quick: 7 544 states, 34 060 transitions (full alphabet depth 2, reduced depth 3); thorough depth 3-4.",
+    "Keeper-level driving (no ante handler, no fees); distribution store compared modulo period renumbering; withdraw-all compared threshold-aware (0.001 coin); slashing only before exploration; the thorough tier's last search can be cut by its time cap (evidence then reports exhaustive: false).",
+    "twin-branch explicit-state BFS (precompile by evm.Call vs native message servers from the same parent branch), dedup on canonical state key, process-sharded",
+    "DESIGN.md §5 C11", "seqx-branch")
+
+chk("C14", "model_checking",
+    "Bounded exhaustive block histories (chains of <= 3 blocks of <= 3 txs over the 11-kind alphabet incl. failing, block-gas-exhausted, rejected and Cosmos txs; MaxGas 100k / 40M) executed on the real app; the real cmttypes.Block and ExecTxResults are fed to the real KVIndexer and served by a recorded-chain CometBFT client to the real rpc/backend.Backend and eth filters. After every IndexBlock: GetByTxHash / GetByBlockAndIndex for every tx, height and index (incl. unknown / out of range) against the position computed from consensus events; GetTransactionReceipt / ByHash / ByBlockAndIndex / GetBlockByNumber|Hash / GetLogs / filters against the consensus results (sender, status, gas used, cumulative gas, logs, indices, contract address); re-indexing and every block permutation give the same index dump; fault enumeration: the real EVMIndexerService is killed at every DB write (write lost / write durable) and restarted at every later chain height, the final index must equal the uninterrupted run. Quick: 1 859 chains, 4 306 states, 16 797 transitions, 303 597 RPC lookups, 836 crash points x 1 562 restarts.",
+    "One crash per run; batch writes atomic (torn batches and the 'write returns error' mode not enumerated); node replaced by a recorded-chain client (placeholder validator hash/signatures); reads concurrent with IndexBlock are not explored; fields the property does not list (effective gas price, type, miner, block hash of standalone logs) are not compared.",
+    "bounded exhaustive block histories on the real app -> real KVIndexer + rpc backend over a recorded-chain client; index dump vs chain model; DB-write crash-point x restart-height enumeration of the real indexer service",
+    "DESIGN.md §3.5, §5 C14", "seqx-replay")
+
 NOT_YET = "check not built yet in this round (planned, see DESIGN.md §9)"
 
 def main():
@@ -122,6 +146,8 @@ def main():
              "kind_free_text": "explicit-state search over operation sequences on the real application; a state is the block list that reaches it, successors are computed by replay on a fresh app instance; sharded over 16 worker processes"},
             {"name": "grid", "path": "harness/checks", "serves_properties": [k for k,v in sorted(CHECKS.items()) if v["engine"]=="grid"],
              "kind_free_text": "exhaustive product of small per-field domains evaluated on the real functions against independent reference oracles"},
+            {"name": "gethref", "path": "harness/checks/c02_gethref.go", "serves_properties": [k for k,v in sorted(CHECKS.items()) if v["engine"]=="gethref"],
+             "kind_free_text": "go-ethereum reference executor: account universe loaded into go-ethereum's own core/state over an in-memory database, core.ApplyMessage with the block context and chain config evermint uses; differential oracle for exhaustive program enumeration"},
             {"name": "envx", "path": "harness/checks/c01.go, harness/cmd/instr, harness/vrt/env.go", "serves_properties": [k for k,v in sorted(CHECKS.items()) if v["engine"]=="envx"],
              "kind_free_text": "deviation-bounded DFS over environment answers: a typed AST rewriter generates a -overlay that puts every map range, wall-clock read and go statement of the consensus packages behind hooks; the explorer enumerates all policies with <= B non-default answers over the sites hit"},
             {"name": "schedx", "path": "harness/vrt, harness/sched, harness/cmd/vsched, harness/cmd/instr", "serves_properties": [k for k,v in sorted(CHECKS.items()) if v["engine"]=="schedx"],
